@@ -170,6 +170,9 @@ func (m *c03Model) collisions(r *Run, ch *ChainSt, post *ChainView) []Violation 
 			}
 		}
 	}
+	for _, f := range fields {
+		cands = append(cands, cand{"case:" + f, "-"}, cand{"swap:" + f, "-"})
+	}
 	hh := safeHash(honest)
 	var refDump Dump
 	var refErr error
